@@ -183,6 +183,20 @@ CHECKS = {
              "pairs of classes without a pair class (P, M, Q) are outside the domain.",
         technique="contract-based deductive verification: path-complete symbolic execution of the real operand callbacks and emitters "
                   "over an exhaustively enumerated finite spelling domain, postconditions against an architectural table"),
+    "C06": dict(
+        category="proof",
+        text="Ghost-state contracts over the pending table P (h_tmpN -> pending sequence) with SYMBOLIC temporary numbering: "
+             "resolve_hybrid adds exactly one entry named by the old counter, orders [tmp-write, effect] for postfix operators "
+             "(old value) and [effect, tmp-write] for calls/statement-expressions, leaves other entries untouched and sequences "
+             "pending operands of the hybrid first; chk_hybrid_dep sequences exactly the entries named by the consumer's operands, "
+             "in operand order, removing them (exactly once); every effect-producing callback routes through it; for-loop steps "
+             "run after the body; statement-expression arms of ?: are guarded on the right side; dead arms lose their side "
+             "effect. Top-level placement, ?: arms with ++/calls and && || short-circuit are refuted with source-level replays: "
+             "known findings F8 F9 F9b.",
+        design_ref="DESIGN.md section 3, C06",
+        note=TRUST + "SEQN / SETL evaluation order (T-RZIL); composition over nesting (T-IND); user variables are not named h_tmp<digits>.",
+        technique="contract-based deductive verification with ghost state: structural postconditions over the pending table under "
+                  "symbolic numbering, path-complete symbolic execution of the real callbacks, source-level native replay"),
 }
 
 NOT_APPLICABLE = {
